@@ -74,7 +74,8 @@ def usq (ops : List String) : String :=
       | op :: r => let (st1, o) := Usq.step st op false; go st1 r (usqTok op o :: acc)
     String.intercalate " " (go Usq.init ops [])
 
-/-! ### alias:  c<t>.<index>=<alias> add   d<t>.<index>=<alias> remove   g<t>.<index>   l<t>   q<t>.<alias> resolve   R   G (graceful shutdown + restart) -/
+/-! ### alias:  c<t>.<index>=<alias> add   d<t>.<index>=<alias> remove   g<t>.<index>   l<t>   q<t>.<alias> resolve   R   G (graceful shutdown + restart)
+     P<t>.<action>,… one POST _aliases request (actions: a<index>=<alias>, A<index>+…=<alias>, r<index>=<alias>, x) → ok | bad -/
 def aliasOp? (s : String) : Option Alias.Op :=
   if s = "R" then some .restart else
   if s = "G" then some .graceful else
@@ -107,14 +108,50 @@ def aliasTok : Alias.Out → String
   | .restarted => "R"
   | .gracefulRestarted => "G"
 
+/-- one action of a `P` request: a<index>=<alias> | A<index>+<index>…=<alias> (the `indices` form) |
+r<index>=<alias> | x (an action the handler cannot read) -/
+def aliasAct? (s : String) : Option Alias.Act :=
+  if s = "x" then some .refuse else
+  match s.toList with
+  | o :: r =>
+    match split1 (String.ofList r) '=' with
+    | some (is, a) =>
+      match key? a with
+      | none => none
+      | some a =>
+        if o = 'a' then (key? is).map (fun i => .add i a)
+        else if o = 'r' then (key? is).map (fun i => .remove i a)
+        else if o = 'A' then
+          (if is.isEmpty then some [] else (is.splitOn "+").mapM key?).map (fun l => .addMany l a)
+        else none
+    | none => none
+  | [] => none
+
+/-- P<t>.<action>,<action>,…  one POST _aliases request -/
+def aliasPost? (s : String) : Option (Nat × List Alias.Act) :=
+  match s.toList with
+  | 'P' :: r =>
+    match splitTenant (String.ofList r) with
+    | some (t, rest) => if rest.isEmpty then none else ((rest.splitOn ",").mapM aliasAct?).map (fun l => (t, l))
+    | none => none
+  | _ => none
+
+def aliasItem? (s : String) : Option (Sum Alias.Op (Nat × List Alias.Act)) :=
+  match aliasOp? s with
+  | some op => some (.inl op)
+  | none => (aliasPost? s).map .inr
+
 def alias (ops : List String) : String :=
-  match ops.mapM aliasOp? with
+  match ops.mapM aliasItem? with
   | none => "bad-op"
   | some ops =>
-    let rec go (st : Alias.St) (ops : List Alias.Op) (acc : List String) : List String :=
+    let rec go (st : Alias.St) (ops : List (Sum Alias.Op (Nat × List Alias.Act))) (acc : List String) : List String :=
       match ops with
       | [] => acc.reverse
-      | op :: r => let (st1, o) := Alias.step st op; go st1 r (aliasTok o :: acc)
+      | .inl op :: r => let (st1, o) := Alias.step st op; go st1 r (aliasTok o :: acc)
+      | .inr (t, acts) :: r =>
+        let (st1, ack) := Alias.post st t acts
+        go st1 r ((if ack then "ok" else "bad") :: acc)
     String.intercalate " " (go Alias.init ops [])
 
 /-! ### dash (dashboards + folders): ids are decimal numbers, 0 = root folder, n = the n-th object created by the line
